@@ -54,6 +54,16 @@ func (c *c07Case) numTextCol(col int, v any) any {
 	return v
 }
 
+// hasNaN: the store holds the text NaN, which float() reads as not-a-number.
+func (c *c07Case) hasNaN() bool {
+	for _, p := range c.Store {
+		if p.V == "NaN" {
+			return true
+		}
+	}
+	return false
+}
+
 func (c *c07Case) orderClause() string {
 	parts := make([]string, len(c.Orders))
 	for i, o := range c.Orders {
@@ -124,6 +134,11 @@ func c07Sels() []c07Sel {
 		// which sort like the Booleans: false first)
 		{sel: "select float(value) > 1.2 as b, is_int(value) as ii, count(1) as c, sum(strlen(key)) as sk where true group by b, ii",
 			names: []string{"b", "ii", "c", "sk"}, cols: []int{0, 1, 2, 3}, kind: "num", aggr: true},
+		// not-a-number among the numbers
+		{sel: "select key, float(value) as f, float(value) * 2 as g, strlen(value) as l where true",
+			names: []string{"f", "g", "key", "l"}, cols: []int{1, 2, 0, 3}, kind: "nan"},
+		{sel: "select value as v, max(float(value)) as mx, count(1) as c where true group by v",
+			names: []string{"mx", "c", "v"}, cols: []int{1, 2, 0}, kind: "nan", aggr: true},
 		// fields defined through other fields: their type is known only once the names are resolved
 		{sel: "select key, value as v, v + '!' as vx, strlen(v) as l, l * 2 - 1 as m where true",
 			names: []string{"v", "vx", "l", "m"}, cols: []int{1, 2, 3, 4}, kind: "text"},
@@ -193,6 +208,24 @@ func c07OrderSpecs(s c07Sel, maxLen int) [][]c07Order {
 		}
 	}
 	rec(nil, 0)
+	if maxLen >= 3 {
+		// a field listed twice ahead of another one: the repetition decides
+		// nothing and the field behind it keeps its own direction
+		for i, a := range s.names {
+			for j, b := range s.names {
+				if i == j {
+					continue
+				}
+				for _, d1 := range dirs {
+					for _, d2 := range dirs {
+						for _, d3 := range dirs {
+							out = append(out, []c07Order{{Name: a, Col: s.cols[i], Desc: d1 == "desc", Dir: d1}, {Name: a, Col: s.cols[i], Desc: d2 == "desc", Dir: d2}, {Name: b, Col: s.cols[j], Desc: d3 == "desc", Dir: d3}})
+						}
+					}
+				}
+			}
+		}
+	}
 	return out
 }
 
@@ -229,6 +262,8 @@ func (c07) RunUnit(t core.Tier, u int, r *core.Reporter) {
 		vals = []string{"-5", "-3", "-10", "4"}
 	case "signedf":
 		vals = []string{"-5", "-3.5", "100", "9.5"}
+	case "nan":
+		vals = []string{"2", "NaN", "1", "3.5"}
 	case "bigint":
 		vals = []string{"9007199254740993", "9007199254740992", "9007199254740994", "-9007199254740993"}
 	}
@@ -401,11 +436,31 @@ func c07Judge(c *c07Case) (f *core.Failure, nontrivial bool, status, observed st
 		return mk("not-a-permutation", "a permutation of "+base.Describe(), ord.Describe()), len(base.Rows) >= 2, "", observed
 	}
 	status = "ok"
-	for i := 1; i < len(ord.Raw); i++ {
-		a, b := ord.Raw[i-1], ord.Raw[i]
+	// NaN (float('NaN')) has no place in the numeric order: the rows whose order
+	// columns are all numbers must be in order among themselves, wherever the
+	// NaN rows stand
+	sorted, sortedRows := ord.Raw, ord.Rows
+	if c.hasNaN() {
+		sorted, sortedRows = nil, nil
+		for i, row := range ord.Raw {
+			nan := false
+			for _, o := range c.Orders {
+				if o.Col < len(row) {
+					if v, ok := row[o.Col].(float64); ok && v != v {
+						nan = true
+					}
+				}
+			}
+			if !nan {
+				sorted, sortedRows = append(sorted, row), append(sortedRows, ord.Rows[i])
+			}
+		}
+	}
+	for i := 1; i < len(sorted); i++ {
+		a, b := sorted[i-1], sorted[i]
 		for _, o := range c.Orders {
 			if o.Col >= len(a) || o.Col >= len(b) {
-				return mk("missing-order-column", "order column present", ord.Rows[i]), true, "", observed
+				return mk("missing-order-column", "order column present", sortedRows[i]), true, "", observed
 			}
 			cmp, ok := cmpCol(c.numTextCol(o.Col, a[o.Col]), c.numTextCol(o.Col, b[o.Col]))
 			if !ok {
@@ -419,7 +474,7 @@ func c07Judge(c *c07Case) (f *core.Failure, nontrivial bool, status, observed st
 				break
 			}
 			if cmp > 0 {
-				return mk("not-sorted", fmt.Sprintf("row %d <= row %d under %s", i-1, i, c.orderClause()), fmt.Sprintf("row %d = %s ; row %d = %s ; all rows: %s", i-1, ord.Rows[i-1], i, ord.Rows[i], ord.Describe())), true, "", observed
+				return mk("not-sorted", fmt.Sprintf("row %d <= row %d under %s", i-1, i, c.orderClause()), fmt.Sprintf("row %d = %s ; row %d = %s ; all rows: %s", i-1, sortedRows[i-1], i, sortedRows[i], ord.Describe())), true, "", observed
 			}
 		}
 	}
@@ -432,7 +487,7 @@ func c07Judge(c *c07Case) (f *core.Failure, nontrivial bool, status, observed st
 	// ORDER BY under LIMIT: the window [s, s+n) of the sorted sequence. Rows that
 	// tie on all order fields are interchangeable, so the window is compared on
 	// the order columns, and every returned row must be a row of the result.
-	if status == "ok" && len(ord.Rows) >= 3 {
+	if status == "ok" && len(ord.Rows) >= 3 && !c.hasNaN() {
 		keyOf := func(raw []any) string {
 			var b strings.Builder
 			for _, o := range c.Orders {
